@@ -276,7 +276,11 @@ class KaniResult:
         m = re.search(r"Generated (\d+) VCC\(s\), (\d+) remaining after simplification", out)
         if m:
             self.vccs = (int(m.group(1)), int(m.group(2)))
-        if "VERIFICATION:- SUCCESSFUL" in out:
+        if "Solver ran out" in out and "VERIFICATION:- SUCCESSFUL" not in out:
+            # CBMC gave up for lack of memory (Kani's output parser may die on the truncated stream)
+            self.status = "error"
+            self.note = "CBMC error / out of memory"
+        elif "VERIFICATION:- SUCCESSFUL" in out:
             self.status = "success"
         elif "VERIFICATION:- FAILED" in out:
             self.status = "failed"
